@@ -350,6 +350,7 @@ class BackendProvider(ABC):
         """
         from ..dyads import (eval_dyad_divide, eval_dyad_equal, eval_dyad_less,
                              eval_dyad_more, eval_dyad_power)
+        from ..monads import eval_monad_negate
 
         def nonempty(a):
             if len(a) == 0:
@@ -363,6 +364,7 @@ class BackendProvider(ABC):
             '_kg_equal': lambda a, b: eval_dyad_equal(a, b, self),
             '_kg_more': lambda a, b: eval_dyad_more(a, b, self),
             '_kg_less': lambda a, b: eval_dyad_less(a, b, self),
+            '_kg_negate': lambda a: eval_monad_negate(a, self),
         }
 
     @staticmethod
